@@ -61,6 +61,10 @@ func (w *Workspace) Initialize() error {
 
 	if rootPath != "" {
 		resolved, errs := w.loader.Load(rootPath)
+		if text, open := w.loader.OpenContent(rootPath); open {
+			// the root journal is open in the editor: its buffer counts
+			resolved, errs = w.loader.LoadFromContent(rootPath, text)
+		}
 		w.resolved = resolved
 		w.loadErrors = errs
 		w.buildIndexFromResolvedLocked()
